@@ -185,6 +185,7 @@ def run(ctx: Ctx):
 
     # ---- R05.c inputs untouched / result array -------------------------------------
     ctx.rule("R05.c", "the step allocates a fresh result array, writes only there, returns it; inputs are const / never stored through", floor=6)
+    check_jax_decorators(ctx, "R05.c")
     from . import util as _util
     from sa import av as _av0
 
@@ -298,8 +299,34 @@ def run(ctx: Ctx):
 
     slot_families(ctx, "R05.e", only_family="STATE", floor=False, producers=lambda p: p.func.qualname in ("CodeGenerator.initial_state_values", "CodeGenerator._state_assignments", euler_name or "explicit_euler"))
     ctx.rule("R05.f", "every argument order names states, t, dt, parameters by their own letters", floor=10)
+    from .c12 import check_generator_purity
+
+    # the argument tuple is computed from `order` on every call (a Func remembered from an earlier call fixes the
+    # signature of every later scheme, and `arguments += [...]` in the caller would grow the remembered list)
+    check_generator_purity(ctx, "R05.f", only={"_scheme_arguments", "_rhs_arguments", "scheme"}, classes=(("codegen/base.py", "CodeGenerator"), ("codegen/python.py", "PythonCodeGenerator"), ("codegen/c.py", "CCodeGenerator"), ("codegen/jax.py", "JaxCodeGenerator")))
     argument_orders(ctx, "R05.f")
     ctx.rule("R05.g", "the jax step returns the slots of its body in slot order (_values_0 .. _values_{n-1})", floor=3)
     from .c03 import jax_template
 
     jax_template(ctx, "R05.g")
+
+
+def check_jax_decorators(ctx: Ctx, rule: str):
+    """The jax method template decorates the generated functions with a plain `@jax.jit`: buffer donation
+    (`donate_argnums` / `donate_argnames`) hands the caller's input arrays to the result, i.e. the generated step
+    destroys its inputs."""
+    from sa import av as _av
+
+    from . import util
+
+    tf = ctx.sm.func("templates/jax.py", "method")
+    v = util.value_of(ctx, tf)
+    key = tf.key("decorators")
+    if _av.has_unk(v):
+        ctx.undecided(rule, key, "what the jax method template returns is not understood", tf.where())
+        return
+    texts = util.strings_in(v)
+    decos = sorted({ln.strip() for t in texts for ln in t.splitlines() if ln.strip().startswith("@")})
+    donating = [t for t in texts if "donate_arg" in t]
+    ok = not donating and all(d == "@jax.jit" or d.startswith("@jax.jit\n") for d in decos)
+    ctx.check(ok, rule, key, "decorated with a plain @jax.jit", f"the jax method template decorates generated functions with {decos or donating[:1]}: anything but a plain `@jax.jit` (buffer donation in particular) lets a generated step invalidate the arrays it was given", tf.where())
